@@ -72,6 +72,7 @@ func (mltp MaskedLinearTransformationProtocol) WithParams(paramsOut ckks.Paramet
 	return MaskedLinearTransformationProtocol{
 		e2s:          mltp.e2s.ShallowCopy(),
 		s2e:          s2e,
+		noise:        mltp.noise,
 		prec:         mltp.prec,
 		defaultScale: defaultScale,
 		mask:         mask,
